@@ -302,6 +302,28 @@ fn main() {
                 2 => d.hp(vf, false),
                 _ => d.od(vf, false),
             }, map, cfg.dst);
+            // the same next to HardRock / Easy / HardRock + Hidden: in lazer form with the DifficultyAdjust vs as bits with the
+            // override (a DifficultyAdjust must not switch anything else of the other mods off)
+            for bits in [settings::HR, settings::EZ, settings::HR | settings::HD] {
+                let (ar, cs, hp, od) = match attr {
+                    0 => (Some(v), None, None, None),
+                    1 => (None, Some(v), None, None),
+                    2 => (None, None, Some(v), None),
+                    _ => (None, None, None, Some(v)),
+                };
+                let a2 = run(ModSpec::DaPlus(bits, ar, cs, hp, od).build(mode), &|d| d, map, cfg.dst);
+                let b2 = run(GameMods::from(bits), &|d| match attr {
+                    0 => d.ar(vf, false),
+                    1 => d.cs(vf, false),
+                    2 => d.hp(vf, false),
+                    _ => d.od(vf, false),
+                }, map, cfg.dst);
+                l.checked(10);
+                if let Some(msg) = differ(&a2, &b2) {
+                    l.violation("da_next_to_other_mods", || format!("cfg={cfg:?} lazer mods [bits {bits} + DifficultyAdjust attr#{attr}={v}] vs bits {bits} with the Difficulty override: {msg}\nspec={}\n--- .osu ---\n{}", spec.describe(), spec.text()));
+                    return;
+                }
+            }
             l.states(1);
             l.checked(5);
             if a.diff.stars() > 0.0 {
